@@ -31,6 +31,11 @@ int main() {
     try { nm = e.getEleName(num); } catch (...) {}                                                    \
     printf("C20 elem %s %ld %ld %s %s %s %s\n", hexs(s).c_str(), num, (long)e.getNucCrg(s), dexact(e.getMass(s)).c_str(), \
            hexs(nm).c_str(), hexs(full).c_str(), hexs(sh).c_str());                                   \
+    /* self-consistency of the mass lookup: the element closest in mass to an element's own mass is that element */ \
+    std::string back = "?"; int assoc = -1;                                                           \
+    try { back = e.getEleShortClosestInMass(e.getMass(s), 0.01); } catch (...) { back = "!"; }       \
+    try { assoc = e.isMassAssociatedWithElement(e.getMass(s), 0.01) ? 1 : 0; } catch (...) {}         \
+    printf("C20 massback %s %s %d\n", hexs(s).c_str(), hexs(back).c_str(), assoc);                    \
   }
 #include "c20_enums.inc"
   {
